@@ -11,8 +11,11 @@ import time
 from . import build, tlc
 
 VERIF = os.path.dirname(os.path.dirname(os.path.abspath(__file__)))
-EVID = os.path.join(VERIF, "evidence")
-REPLAYS = os.path.join(VERIF, "replays")
+# VERIF_OUT redirects evidence and replays (used when trying a seeded change against a scratch tree, so
+# that the committed evidence of the real tree is not overwritten)
+_OUT = os.environ.get("VERIF_OUT") or VERIF
+EVID = os.path.join(_OUT, "evidence")
+REPLAYS = os.path.join(_OUT, "replays")
 FINDINGS = os.path.join(VERIF, "known_findings.jsonl")
 NPROC = min(16, os.cpu_count() or 4)
 
